@@ -1,6 +1,8 @@
 module github.com/luno/workflow/verifharness
 
-go 1.23.2
+go 1.23.4
+
+toolchain go1.23.5
 
 replace github.com/luno/workflow => /repo
 
@@ -8,6 +10,8 @@ replace github.com/luno/workflow/adapters/webui => /repo/adapters/webui
 
 require (
 	github.com/luno/workflow v0.3.0
+	github.com/luno/workflow/adapters/sqlstore v0.0.0-00010101000000-000000000000
+	github.com/luno/workflow/adapters/sqltimeout v0.0.0-00010101000000-000000000000
 	github.com/luno/workflow/adapters/webui v0.0.0-00010101000000-000000000000
 	google.golang.org/protobuf v1.36.6
 	k8s.io/utils v0.0.0-20240921022957-49e7df575cb6
@@ -17,7 +21,12 @@ require (
 	github.com/beorn7/perks v1.0.1 // indirect
 	github.com/cespare/xxhash/v2 v2.3.0 // indirect
 	github.com/davecgh/go-spew v1.1.1 // indirect
+	github.com/fatih/color v1.18.0 // indirect
+	github.com/go-stack/stack v1.8.1 // indirect
 	github.com/google/uuid v1.6.0 // indirect
+	github.com/luno/jettison v0.0.0-20250307143025-a20772f9e9d9 // indirect
+	github.com/mattn/go-colorable v0.1.13 // indirect
+	github.com/mattn/go-isatty v0.0.20 // indirect
 	github.com/munnerz/goautoneg v0.0.0-20191010083416-a7dc8b61c822 // indirect
 	github.com/pmezard/go-difflib v1.0.0 // indirect
 	github.com/prometheus/client_golang v1.20.4 // indirect
@@ -25,7 +34,12 @@ require (
 	github.com/prometheus/common v0.55.0 // indirect
 	github.com/prometheus/procfs v0.15.1 // indirect
 	github.com/robfig/cron/v3 v3.0.1 // indirect
-	github.com/stretchr/testify v1.9.0 // indirect
-	golang.org/x/sys v0.22.0 // indirect
+	github.com/stretchr/testify v1.10.0 // indirect
+	golang.org/x/sys v0.31.0 // indirect
+	golang.org/x/xerrors v0.0.0-20240903120638-7835f813f4da // indirect
 	gopkg.in/yaml.v3 v3.0.1 // indirect
 )
+
+replace github.com/luno/workflow/adapters/sqlstore => /repo/adapters/sqlstore
+
+replace github.com/luno/workflow/adapters/sqltimeout => /repo/adapters/sqltimeout
